@@ -199,6 +199,12 @@ class Dataset(AbstractDataset, dict, OpMixin, GetSetDelAttrMixin):
         val._axes = copy.deepcopy(val.axes)
 
         # Check dimensions
+        # first check all axes, so that a rejected assignment leaves the dataset unchanged
+        for newaxis in val.axes:
+            if newaxis.name in self.dims and not newaxis == self.axes[newaxis.name]:
+                raise ValueError("axes values do not match, align data first.\
+                            \nDataset: {}, \nGot: {}".format(self.axes[newaxis.name], newaxis))
+
         # make sure axes match those of the dataset
         for i, newaxis in enumerate(val.axes):
 
